@@ -186,20 +186,11 @@ func (g *c14Graph) canon1(ctx *c14Ctx, e ast.Expr, at *c14Node) *c14Val {
 		if b := builtinName(info, x); b != "" {
 			return &c14Val{k: 'C', key: fmt.Sprintf("C(%s@%d;%s)", b, c14AtID(at), c14Keys(args)), name: b, args: args, at: at, node: x}
 		}
-		// a followed callee with exactly one return of one value stands for that value
+		// a followed callee stands for the value it returns when only one of its return statements can have produced
+		// the value seen at this point (c14_result.go)
 		if cc := g.ctxs[c14CtxKey{ctx, x}]; cc != nil && cc.fn.nres == 1 {
-			var rets []*c14Node
-			for _, n := range g.execNodes() {
-				if n.ctx == cc {
-					if _, ok := n.ast.(*ast.ReturnStmt); ok {
-						rets = append(rets, n)
-					}
-				}
-			}
-			if len(rets) == 1 {
-				if rs := rets[0].ast.(*ast.ReturnStmt); len(rs.Results) == 1 {
-					return g.canon(cc, rs.Results[0], rets[0])
-				}
+			if v := g.followedResult(ctx, x, 0, at); v != nil {
+				return v
 			}
 		}
 		v := &c14Val{k: 'C', args: args, at: at, node: x}
@@ -259,7 +250,7 @@ func (g *c14Graph) resolveVar(ctx, owner *c14Ctx, o types.Object, at *c14Node) *
 		return plain
 	}
 	d := defs[0]
-	v := og.defValue(d, owner, o)
+	v := og.defValue(d, owner, o, at)
 	if v == nil {
 		return plain
 	}
@@ -353,7 +344,7 @@ func (g *c14Graph) reachingDefs(owner *c14Ctx, o types.Object, at *c14Node) (def
 
 // defValue returns the term assigned to (owner, o) by definition node d, or nil when the definition is not a plain
 // assignment of a value (loop variables, ++, op-assignments).
-func (g *c14Graph) defValue(d *c14Node, owner *c14Ctx, o types.Object) *c14Val {
+func (g *c14Graph) defValue(d *c14Node, owner *c14Ctx, o types.Object, use *c14Node) *c14Val {
 	if !d.exec() {
 		call := d.inl[d.step]
 		if a := c14Bindings(owner.fn, call)[o]; a != nil {
@@ -363,6 +354,11 @@ func (g *c14Graph) defValue(d *c14Node, owner *c14Ctx, o types.Object) *c14Val {
 	}
 	info := owner.fn.info
 	tuple := func(rhs ast.Expr, i int) *c14Val {
+		if call, ok := ast.Unparen(rhs).(*ast.CallExpr); ok {
+			if v := g.followedResult(owner, call, i, use); v != nil {
+				return v
+			}
+		}
 		t := g.canon(owner, rhs, d)
 		return &c14Val{k: 't', key: fmt.Sprintf("t%d(%s)", i, t.key), idx: i, x: t, at: d}
 	}
@@ -376,6 +372,11 @@ func (g *c14Graph) defValue(d *c14Node, owner *c14Ctx, o types.Object) *c14Val {
 				continue
 			}
 			if len(x.Lhs) == len(x.Rhs) {
+				if call, ok := ast.Unparen(x.Rhs[i]).(*ast.CallExpr); ok {
+					if v := g.followedResult(owner, call, 0, use); v != nil {
+						return v
+					}
+				}
 				return g.canon(owner, x.Rhs[i], d)
 			}
 			if len(x.Rhs) == 1 {
